@@ -448,7 +448,7 @@ func Column(sb *strings.Builder, col *ast.ColumnDeclaration, depth int) {
 		explainStatisticsExpr(sb, col.Statistics, indent+" ", depth+1)
 	}
 	if col.Comment != "" {
-		fmt.Fprintf(sb, "%s Literal \\'%s\\'\n", indent, col.Comment)
+		fmt.Fprintf(sb, "%s Literal \\'%s\\'\n", indent, escapeStringLiteral(col.Comment))
 	}
 }
 
